@@ -60,6 +60,22 @@ fn one(ctx: &Ctx, rep: &mut Report, id: usize, cfg: Cfg, k: usize) {
     let mut at: Vec<Attempt> = vec![];
     at.push(mk("valid control", true, base_vals.clone(), base_bl.clone(), base_pr.clone(), base_c.clone()));
     at.push(mk("valid control, no promises", true, base_vals.clone(), base_bl.clone(), vec![None; m], base_c.clone()));
+    // degenerate but valid openings: an all-zero blinding vector, a single zero component, value 0 with zero blindings
+    {
+        let j = k % m;
+        let mut bl = base_bl.clone();
+        bl[j] = vec![Scalar::ZERO; cfg.ext];
+        let c = commit_all(&base_vals, &bl);
+        at.push(mk(&format!("valid: blinding vector [{j}] all zero"), true, base_vals.clone(), bl.clone(), base_pr.clone(), c));
+        let mut vals = base_vals.clone();
+        vals[j] = 0;
+        let c = commit_all(&vals, &bl);
+        at.push(mk(&format!("valid: value[{j}] = 0 with zero blindings (identity commitment)"), true, vals, bl, vec![None; m], c));
+        let mut bl = base_bl.clone();
+        bl[j][cfg.ext - 1] = Scalar::ZERO;
+        let c = commit_all(&base_vals, &bl);
+        at.push(mk(&format!("valid: last blinding component of [{j}] zero"), true, base_vals.clone(), bl, base_pr.clone(), c));
+    }
     // positions to break: first, last, one in the middle
     let mut positions = vec![0usize, m - 1, m / 2];
     positions.sort_unstable();
@@ -201,12 +217,22 @@ fn one(ctx: &Ctx, rep: &mut Report, id: usize, cfg: Cfg, k: usize) {
         rep.count("prove_calls", 1);
         let st = match RangeStatement::init(prm.clone(), a.commitments.clone(), a.promises.clone(), None) {
             Ok(s) => s,
-            Err(_) => continue,
+            Err(e) => {
+                if a.valid {
+                    rep.violation(&format!("C06 valid-statement-refused [{class}]"), &format!("the statement constructor refuses a valid statement (`{}`): {e}", a.name), replay);
+                }
+                continue;
+            },
         };
         let openings: Vec<CommitmentOpening> = (0..a.values.len()).map(|j| CommitmentOpening::new(a.values[j], a.blindings[j].clone())).collect();
         let w = match RangeWitness::init(openings) {
             Ok(w) => w,
-            Err(_) => continue,
+            Err(e) => {
+                if a.valid {
+                    rep.violation(&format!("C06 valid-witness-refused [{class}]"), &format!("the witness constructor refuses a valid witness (`{}`): {e}", a.name), replay);
+                }
+                continue;
+            },
         };
         let t = Context::plain().transcript();
         let mut prng = FaultRng::new(RngKind::Healthy(rng.next_u64()));
